@@ -93,9 +93,67 @@ static int order_deep(const case_t *c)
     return 0;
 }
 
+/* several application threads preprocess different, unrelated matrices at the same time (each with its own arguments): every
+   result has to be the one the same call gives when nothing else runs.  The orderings are deterministic, so the comparison is
+   bit for bit; under ThreadSanitizer any state shared between the calls shows as a race. */
+#include <pthread.h>
+typedef struct { csc_t G; SuperMatrix A; int ispec, symm, rounds; uint64_t ref, got; long bad; } occ_t;
+static uint64_t occ_once(occ_t *o)
+{
+    int_t n = o->G.n;
+    int_t *perm_c = xmalloc((n + 1) * sizeof(int_t));
+    get_perm_c(o->ispec, &o->A, perm_c);
+    superlumt_options_t opt; memset(&opt, 0, sizeof opt);
+    opt.refact = NO; opt.SymmetricMode = o->symm ? YES : NO; opt.nprocs = 1;
+    opt.etree = intMalloc(n + 1); opt.colcnt_h = intMalloc(n + 1); opt.part_super_h = intMalloc(n + 1);
+    SuperMatrix AC; memset(&AC, 0, sizeof AC);
+    sp_colorder(&o->A, perm_c, &opt, &AC);
+    uint64_t h = fnv(perm_c, n * sizeof(int_t), FNV0);
+    h = fnv(opt.etree, n * sizeof(int_t), h); h = fnv(opt.colcnt_h, n * sizeof(int_t), h); h = fnv(opt.part_super_h, n * sizeof(int_t), h);
+    if (AC.Store) Destroy_CompCol_Permuted(&AC);
+    SUPERLU_FREE(opt.etree); SUPERLU_FREE(opt.colcnt_h); SUPERLU_FREE(opt.part_super_h);
+    free(perm_c);
+    return h;
+}
+static void *occ_thread(void *arg)
+{
+    occ_t *o = arg;
+    for (int r = 0; r < o->rounds; ++r) { o->got = occ_once(o); if (o->got != o->ref) ++o->bad; }
+    return NULL;
+}
+static int order_concurrent(const case_t *c)
+{
+    int napp = (int)cint(c, "napp", 3); if (napp < 2) napp = 2; if (napp > 8) napp = 8;
+    occ_t o[8]; memset(o, 0, sizeof o);
+    jo_begin(c);
+    jo_str("sub", "concurrent"); jo_int("napp", napp);
+    int ok = 1; long nsum = 0, nzsum = 0;
+    for (int t = 0; t < napp; ++t) {
+        rng_t rng = { (uint64_t)(cint(c, "seed", 1) + 7919 * t) * 2654435761ULL + 31337 };
+        if (gen_matrix(c, &rng, &o[t].G)) { ok = 0; napp = t; break; }
+        CREATE_COMPCOL(&o[t].A, o[t].G.m, o[t].G.n, o[t].G.nnz, o[t].G.val, o[t].G.rowind, o[t].G.colptr, SLU_NC, SLU_DT, SLU_GE);
+        o[t].ispec = (int)((cint(c, "ord", 0) + t) % 4); o[t].symm = (int)cint(c, "symm", 0); o[t].rounds = (int)cint(c, "rounds", 20);
+        o[t].ref = occ_once(&o[t]);          /* alone */
+        nsum += o[t].G.n; nzsum += o[t].G.nnz;
+    }
+    jo_int("n", nsum); jo_int("nnz", nzsum);
+    if (ok) {
+        pthread_t th[8];
+        for (int t = 0; t < napp; ++t) pthread_create(&th[t], NULL, occ_thread, &o[t]);
+        for (int t = 0; t < napp; ++t) pthread_join(th[t], NULL);
+        long bad = 0; for (int t = 0; t < napp; ++t) bad += o[t].bad;
+        jo_int("concurrent_calls", (long)napp * o[0].rounds);
+        if (bad) jo_fail("C10|concurrent-callers-differ", "%ld of %ld preprocessing calls made while other application threads preprocessed other matrices returned another perm_c / etree / column counts / partition than the same call alone", bad, (long)napp * o[0].rounds);
+    } else jo_str("error", "gen_matrix");
+    jo_end();
+    for (int t = 0; t < napp; ++t) { Destroy_SuperMatrix_Store(&o[t].A); csc_free(&o[t].G); }
+    return ok ? 0 : 2;
+}
+
 int cmd_order(const case_t *c)
 {
     if (!strcmp(cstr(c, "sub", "colorder"), "deep")) return order_deep(c);
+    if (!strcmp(cstr(c, "sub", "colorder"), "concurrent")) return order_concurrent(c);
     rng_t rng = { (uint64_t)cint(c, "seed", 1) * 2654435761ULL + 31337 };
     csc_t G;
     if (gen_matrix(c, &rng, &G)) { jo_begin(c); jo_str("error", "gen_matrix"); jo_end(); return 2; }
